@@ -39,6 +39,13 @@ SHARED_USERS = {
 }
 
 
+def shared_only():
+    """Instances that sit in no handler module (doc_cursor, DocumentCursor, the helpers every position request goes through)."""
+    def f(i):
+        return "features::" in i.key and not any(("features::%s::" % m) in i.key or ("features/%s.rs" % m) in i.key for m in HANDLER_MODULES)
+    return f
+
+
 def nottag(*tags):
     s = set(tags)
     return lambda i: not (s & set(i.tags))
@@ -103,7 +110,9 @@ prop("C02", NEC + "Clauses: token-range to text-range conversions unwrap first()
       {"rule": "RECURSION-BOUND", "floor": 4}, {"rule": "CODEC", "floor": 8}, {"rule": "BROKER", "filter": tag("answer"), "floor": 1},
       {"rule": "ERR-FRAME", "filter": tag("entry"), "floor": 3},
       # a handler that takes the first token of a node's slice for the node's own token *and* panics on another kind of token
-      {"rule": "SLICE-FIRST", "filter": tag("panics"), "floor": 0}])
+      {"rule": "SLICE-FIRST", "filter": tag("panics"), "floor": 0},
+      # "for every edit history the server process stays alive": a change that is not accepted at once is waited for, not turned into an error
+      {"rule": "SEND-AWAIT", "filter": nottag("order"), "floor": 8}])
 
 prop("C03", NEC + "Clauses: each of the 27 build/semantic message kinds has an emitting site under table::* and its own "
      "text (VARIANTS); every error is attached in the reference frame of the node that owns it and is shifted exactly "
@@ -144,7 +153,9 @@ prop("C04", NEC + "Clauses: shape of the precedence-climbing parser (levels, loo
       # a valid program gets no syntax diagnostic only if the parser is handed the program's tokens: a keyword is a whole word
       {"rule": "KEYWORD-BOUNDARY", "filter": nottag("charvalue"), "floor": 3},
       # "independent of whitespace and comments": a comment is one comment token, whatever line ending closes it
-      {"rule": "COMMENT-LEX", "floor": 5}])
+      {"rule": "COMMENT-LEX", "floor": 5},
+      # every character may stand between two ticks (a tick between two ticks is a valid literal)
+      {"rule": "LEX-MUNCH", "filter": tag("anychar"), "floor": 1}])
 
 prop("C05", NEC + "Clauses: the five synchronisation sets are nested and all contain proc/type/eof, each error "
      "variant recovers with its own set (SYNC-SETS); failed token parsers and expect() hand back the original "
@@ -154,7 +165,9 @@ prop("C05", NEC + "Clauses: the five synchronisation sets are nested and all con
       # the damage arrives as an edit: "keeps its symbol-table entry" then needs the table to be rebuilt from the tree of the final text
       {"rule": "STRIP-REBUILD", "floor": 2}, {"rule": "REBUILD", "filter": nottag("textid"), "floor": 1},
       # "every syntax diagnostic lies within the damaged declaration": the published text range comes from the tokens the error names
-      {"rule": "EMPTY-RANGE-GUARD", "filter": tag("diagtokens"), "floor": 1}])
+      {"rule": "EMPTY-RANGE-GUARD", "filter": tag("diagtokens"), "floor": 1},
+      # "remains navigable": the search for the declaration around the cursor does not end at a damaged declaration
+      {"rule": "DECL-SEARCH", "floor": 1}])
 
 prop("C06", NEC + "Clauses: alt(..) order vs. prefix relation of static lexemes (longest match), every static token "
      "lexed exactly once through the macro of its class, class order, exactly one Eof; token ranges are the ranges of the "
@@ -189,7 +202,10 @@ prop("C08", NEC + "Clauses: no content change is discarded, batched changes are 
       # "any range the server reports for a token addresses that token": semantic tokens report ranges relative to the previous token
       {"rule": "SEMTOK-PAIRING", "floor": 9},
       # the server's copy starts as the text of didOpen: AnalyzedSource::new keeps the text it is handed
-      {"rule": "REBUILD", "filter": tag("textid"), "floor": 1}])
+      {"rule": "REBUILD", "filter": tag("textid"), "floor": 1},
+      # "any range the server reports for a token, sent back as a request position, addresses that same token": the shared look-up of
+      # the token under the cursor treats the end of a token as exclusive
+      {"rule": "CURSOR-CMP", "filter": shared_only(), "floor": 0}])
 
 prop("C09", NEC + "Clauses: operators are re-printed as the lexeme they were lexed from (T4); every Format impl prints "
      "every child that holds an identifier, literal or operator and every Error variant (TRAVERSE); every token slice "
@@ -210,14 +226,14 @@ prop("C10", NEC + "Clause: a composite node whose parser skips comments in front
       {"rule": "COMMENT-LEX", "floor": 5},
       {"rule": "LEN-UNITS", "filter": tag("arith"), "floor": 1}, {"rule": "TABLES", "filter": tag("T2"), "floor": 18},
       # "exactly once" is about the document after the edit is applied: the edit covers the whole old text
-      {"rule": "FMT-PURE", "filter": tag("wholedoc"), "floor": 1}])
+      {"rule": "FMT-PURE", "filter": tag("wholedoc", "rewrite"), "floor": 2}])
 
 prop("C11", NEC + "Clauses: the printer does not read byte positions (output is a function of tree and token kinds), the "
      "indentation unit follows insertSpaces/tabSize, null is returned exactly on equality; character literals are printed only with "
      "escapes the lexer reads back (CHAR-ESCAPES: otherwise the formatted text re-lexes differently and a second run changes it again); the "
      "all-comments helper is applied only to text whose parts print no comments themselves (COMMENT-PAIRING nested: otherwise every run adds "
      "another copy of the inner comments in front of the node).",
-     [{"rule": "FMT-PURE", "filter": nottag("rewrite"), "floor": 5}, {"rule": "CHAR-ESCAPES", "floor": 2}, {"rule": "COMMENT-PAIRING", "filter": tag("nested", "order"), "floor": 4}])
+     [{"rule": "FMT-PURE", "floor": 5}, {"rule": "CHAR-ESCAPES", "floor": 2}, {"rule": "COMMENT-PAIRING", "filter": tag("nested", "order"), "floor": 4}])
 
 prop("C12", NEC + "Clauses: an entry's name range is resolved against the token slice cut with that same entry's range "
      "(FRAME S7 in goto.rs / features.rs); inside a procedure the identifier is resolved local-then-global through a "
@@ -255,7 +271,7 @@ prop("C14", NEC + "Clauses: the call statement is located with node, origin and 
      [{"rule": "FRAME", "filter": files("signature_help.rs"), "floor": 8},
       {"rule": "TRAVERSE", "filter": tag("calls"), "floor": 18}, {"rule": "SCOPE-ORDER", "filter": both(feat("hover", "signature_help"), nottag("typescope", "semantic")), "floor": 10},
       {"rule": "DISPLAY-FIELDS", "floor": 6}, {"rule": "IDENT-RANGE", "filter": feat("hover", "signature_help"), "floor": 4}, {"rule": "POS-CONV", "filter": feat("hover", "signature_help"), "floor": 4},
-      {"rule": "CURSOR-CMP", "filter": feat("hover", "signature_help"), "floor": 1}, {"rule": "INDEX-DOMAIN", "floor": 6}, {"rule": "DOC-FLOW", "floor": 1},
+      {"rule": "CURSOR-CMP", "filter": feat("hover", "signature_help"), "floor": 1}, {"rule": "REQ-PURE", "floor": 1}, {"rule": "INDEX-DOMAIN", "floor": 6}, {"rule": "DOC-FLOW", "floor": 1},
       {"rule": "POSITION-TOKEN", "filter": both(tag("nest"), feat("hover", "signature_help")), "floor": 0},
       {"rule": "FRAME", "filter": files("parser.rs", "utility.rs"), "floor": 3},
       {"rule": "TEXT-SYNC", "filter": tag("utf16"), "floor": 1}])
@@ -313,7 +329,10 @@ prop("C19", NEC + "Clauses: decode consumes nothing before its last `Ok(None)`, 
      "queued behind it (BROKER diag: publishing is guarded by the capability flag alone); the process is not terminated by process::exit "
      "on the graceful path, where responses may still be queued for the writer task (WHO-MAY exit).",
      [{"rule": "CODEC", "floor": 8}, {"rule": "WHO-MAY", "filter": tag("framed"), "floor": 1},
-      {"rule": "BROKER", "filter": tag("diag"), "floor": 8}, {"rule": "WHO-MAY", "filter": tag("exit"), "floor": 1}])
+      {"rule": "BROKER", "filter": tag("diag"), "floor": 8}, {"rule": "WHO-MAY", "filter": tag("exit"), "floor": 1},
+      # "the same responses however the bytes are split": requests are handled inline by the reader - a handler in a task of its own
+      # races with the messages buffered behind its request
+      {"rule": "WHO-MAY", "filter": tag("spawn"), "floor": 1}])
 
 prop("C20", NEC + "Clauses: diagnostics only under `if send_diagnostics`, once per Open/Change; Close removes; "
      "document map keyed by an injective function of the URI; no task spawned per request; every channel send is "
